@@ -38,6 +38,12 @@ uint32_t g_r[4], g_X[16], g_in[4];
       g_r[i_] = g_r[(i_ + 1) & 3] + ROTL32(t_, md5_s[n]); \
       __CPROVER_assert(MD5_EQ, "md5: registers after this step equal the RFC 1321 step"); __CPROVER_assume(MD5_EQ); } while(0)
 
+/* ---------------- streaming layer ghosts: the compression function is replaced by a recorder of WHICH bytes it is given:
+   g_nblocks counts calls; the byte g_bj of call number g_bi is remembered in g_obs (arbitrary ghost pair chosen by the harness) */
+size_t g_nblocks, g_bi, g_bj, g_mk; unsigned char g_obs;
+/* entry snapshot for md5_append: bytes already buffered, blocks before the call, and the two old buffer bytes the postcondition may need */
+size_t g_off0, g_nb0, g_lj; unsigned char g_old_for_obs, g_old_for_left; md5_word_t g_c0, g_c1;
+#define MD5_OFF(pms) (((pms)->count[0] >> 3) & 63)
 /* ---------------- FIPS 180-4 SHA-1 ghost (section 6.1.2) */
 struct sha1 { unsigned int h_[5]; unsigned char block_[64]; size_t block_byte_index_; size_t byte_count_; };
 uint32_t g_s[5];
@@ -64,6 +70,43 @@ functions = [
          contract='__CPROVER_requires(__CPROVER_rw_ok(pms, sizeof(*pms)))\n__CPROVER_assigns(pms->count[0], pms->count[1], pms->abcd[0], pms->abcd[1], pms->abcd[2], pms->abcd[3])\n'
                   '/* RFC 1321 section 3.3 initial values, zero length */\n'
                   '__CPROVER_ensures(pms->abcd[0] == 0x67452301u && pms->abcd[1] == 0xefcdab89u && pms->abcd[2] == 0x98badcfeu && pms->abcd[3] == 0x10325476u && pms->count[0] == 0 && pms->count[1] == 0)'),
+    dict(stub=True, cname='verif_memcpy', sig='void *verif_memcpy(void *dst, void const *src, size_t n)',
+         contract='/* C11 memcpy: disjoint valid ranges; dst[k] == src[k] at the arbitrary ghost index g_mk; nothing outside dst[0..n) changes */\n'
+                  '__CPROVER_requires(n <= 64 && (n == 0 || (__CPROVER_r_ok(src, n) && __CPROVER_w_ok(dst, n) && !SAME(dst, src))))\n'
+                  '__CPROVER_assigns(__CPROVER_object_upto(dst, n))\n'
+                  '__CPROVER_ensures(g_mk < n ==> ((unsigned char *)dst)[g_mk] == ((unsigned char const *)src)[g_mk])'),
+    dict(stub=True, cname='md5_process_c', sig='void md5_process_c(md5_state_t *pms, const md5_byte_t *data)',
+         contract='/* contract of md5_process as far as the streaming layer needs it (its functional contract = RFC 1321 compression is job md5_process): reads the 64-byte block, changes only abcd */\n'
+                  '__CPROVER_requires(__CPROVER_rw_ok(pms, sizeof(*pms)) && __CPROVER_r_ok(data, 64))\n'
+                  '__CPROVER_assigns(pms->abcd[0], pms->abcd[1], pms->abcd[2], pms->abcd[3], g_nblocks, g_obs)\n'
+                  '__CPROVER_ensures(g_nblocks == __CPROVER_old(g_nblocks) + 1 && g_obs == (__CPROVER_old(g_nblocks) == g_bi ? data[g_bj] : __CPROVER_old(g_obs)))'),
+    dict(cname='md5_append', file=M, locate=r'void\s+md5_append\(md5_state_t \*pms, const md5_byte_t \*data, int nbytes\)', sig='void md5_append(md5_state_t *pms, const md5_byte_t *data, int nbytes)',
+         functional_casts=False, rename={'md5_process': 'md5_process_c', 'memcpy': 'verif_memcpy'},
+         body_ghost='g_off0 = MD5_OFF(pms); g_nb0 = g_nblocks; g_mk = g_bj - g_off0; g_c0 = pms->count[0]; g_c1 = pms->count[1]; '
+                    'g_old_for_obs = (g_bi >= g_nb0 && 64 * (g_bi - g_nb0) + g_bj < g_off0) ? pms->buf[64 * (g_bi - g_nb0) + g_bj] : 0;',
+         loops={0: '''__CPROVER_assigns(p, left, pms->abcd[0], pms->abcd[1], pms->abcd[2], pms->abcd[3], g_nblocks, g_obs)
+__CPROVER_loop_invariant(left >= 0 && left <= nbytes && SAME(p, data) && OFF(p) + (size_t)left == OFF(data) + (size_t)nbytes && g_nblocks >= g_nb0 && g_nblocks - g_nb0 <= 1 + (size_t)nbytes / 64 &&
+      64 * (g_nblocks - g_nb0) + (size_t)left == g_off0 + (size_t)nbytes)
+__CPROVER_loop_invariant((g_bi >= g_nb0 && g_bi < g_nblocks) ==> g_obs == (64 * (g_bi - g_nb0) + g_bj < g_off0 ? g_old_for_obs : data[64 * (g_bi - g_nb0) + g_bj - g_off0]))
+__CPROVER_decreases(left)'''},
+         contract=r'''
+/* nbytes << 3 is computed in int: lengths of 2^28 bytes or more per call are outside the contract (listed) */
+/* (nbytes << 3 is evaluated before the nbytes <= 0 test: negative lengths are outside the contract too) */
+__CPROVER_requires(__CPROVER_rw_ok(pms, sizeof(*pms)) && nbytes >= 0 && nbytes < (1 << 28) && (nbytes <= 0 || __CPROVER_r_ok(data, nbytes)) && g_bj < 64 && g_nblocks <= BUF_CAP && !SAME(data, pms))
+__CPROVER_assigns(*pms, g_nblocks, g_obs, g_off0, g_nb0, g_c0, g_c1, g_old_for_obs, g_mk)
+/* the message length (64-bit bit count, RFC 1321 3.2) grows by exactly 8*nbytes */
+__CPROVER_ensures(nbytes > 0 ==> (((uint64_t)pms->count[1] << 32) | pms->count[0]) == (((uint64_t)g_c1 << 32) | g_c0) + ((uint64_t)nbytes << 3))
+/* exactly the completed 64-byte blocks of (buffered bytes ++ data) were given to the compression function, in order:
+   byte g_bj of block g_bi (arbitrary ghost pair) is the stream byte with that index */
+__CPROVER_ensures(nbytes > 0 ==> g_nblocks == g_nb0 + (g_off0 + (size_t)nbytes) / 64)
+__CPROVER_ensures((nbytes > 0 && g_bi >= g_nb0 && g_bi < g_nblocks) ==> g_obs == (64 * (g_bi - g_nb0) + g_bj < g_off0 ? g_old_for_obs : data[64 * (g_bi - g_nb0) + g_bj - g_off0]))
+/* an empty append changes nothing */
+__CPROVER_ensures(nbytes <= 0 ==> (g_nblocks == g_nb0 && pms->count[0] == g_c0 && pms->count[1] == g_c1))
+'''),
+    dict(cname='md5_finish', file=M, locate=r'void\s+md5_finish\(md5_state_t \*pms, md5_byte_t digest\[16\]\)', sig='void md5_finish(md5_state_t *pms, md5_byte_t *digest)',
+         functional_casts=False, hoist=[r'(?s)static const md5_byte_t pad\[64\] = \{.*?\};'],
+         contract='__CPROVER_requires(__CPROVER_rw_ok(pms, sizeof(*pms)) && __CPROVER_w_ok(digest, 16) && g_bj < 64 && g_nblocks <= BUF_CAP && !SAME(digest, pms))\n'
+                  '__CPROVER_assigns(*pms, __CPROVER_object_upto(digest, 16), g_nblocks, g_obs, g_off0, g_nb0, g_c0, g_c1, g_old_for_obs, g_mk)'),
     # ---------------- SHA-1
     dict(cname='left_rotate', file=S, locate=lit('inline unsigned int left_rotate(unsigned int x, std::size_t n)'), sig='unsigned int left_rotate(unsigned int x, size_t n)',
          contract='__CPROVER_requires(n >= 1 && n <= 31)\n__CPROVER_assigns()\n__CPROVER_ensures(__CPROVER_return_value == ROTL32(x, n))'),
@@ -114,6 +157,28 @@ jobs = [
     __CPROVER_assert(st.count[0] == st0.count[0] && st.count[1] == st0.count[1], "md5: length counters untouched by the compression function");
     size_t j; __CPROVER_assume(j < 64); __CPROVER_assert(st.buf[j] == st0.buf[j], "md5: block buffer untouched by the compression function");
     VERIF_REACH;''', witness=dict(bufs=['block']), replay='c16:md5', replay_link=['-lcrypto', '-Wno-deprecated-declarations']),
+    dict(name='md5_append', props=P, enforce='md5_append', replace=['md5_process_c', 'verif_memcpy'], checks=HASH_CHECKS, timeout=300,
+         harness=r'''
+    md5_state_t st; int n; __CPROVER_assume(n >= 0 && n < (1 << 28)); unsigned char *d = malloc(n > 0 ? n : 0); __CPROVER_assume(d != NULL);
+    size_t bi, bj, nb; __CPROVER_assume(bj < 64 && nb <= BUF_CAP); g_bi = bi; g_bj = bj; g_nblocks = nb;
+    md5_append(&st, d, n); VERIF_REACH;'''),
+    dict(name='md5_finish', props=P, enforce='md5_finish', replace=['md5_process_c', 'verif_memcpy'], pre_unwind=20, checks=HASH_CHECKS, timeout=600, cost=15,
+         complete_note='md5_append is inlined with its real body: its block loop runs at most once for the <= 64 padding bytes and once for the 8 length bytes; the 8- and 16-iteration loops of md5_finish are unwound (constant bounds, unwinding assertions on)',
+         harness=r'''
+    md5_state_t st, st0; unsigned char dg[16]; size_t bi, bj, nb, dk; __CPROVER_assume(bj < 64 && nb <= BUF_CAP && dk < 16);
+    g_bi = bi; g_bj = bj; g_nblocks = nb; st0 = st;
+    size_t off0 = MD5_OFF(&st0); uint64_t bits0 = ((uint64_t)st0.count[1] << 32) | st0.count[0];
+    md5_finish(&st, dg);
+    /* RFC 1321 3.1/3.2: the message is extended by 0x80, zeros up to 56 mod 64, then the 64-bit bit count, least significant byte first */
+    size_t total = off0 < 56 ? 64 : 128;
+    __CPROVER_assert(g_nblocks == nb + total / 64, "md5_finish feeds one final block, or two when fewer than 9 bytes remain in the last one");
+    if(bi >= nb && bi < nb + total / 64) {
+      size_t t = 64 * (bi - nb) + bj;
+      unsigned char want = t < off0 ? st0.buf[t] : t == off0 ? 0x80 : t < total - 8 ? 0 : (unsigned char)(bits0 >> (8 * (t - (total - 8))));
+      __CPROVER_assert(g_obs == want, "byte of the final block(s): buffered message bytes, then 0x80, zeros, and the bit length (RFC 1321 padding) for EVERY residue of the message length");
+    }
+    __CPROVER_assert(dg[dk] == (unsigned char)(st.abcd[dk >> 2] >> ((dk & 3) << 3)), "digest = A,B,C,D least significant byte first");
+    VERIF_REACH;'''),
     dict(name='md5_init', props=P, enforce='md5_init', checks=HASH_CHECKS, harness='md5_state_t st; md5_init(&st); VERIF_REACH;'),
     dict(name='left_rotate', props=P, enforce='left_rotate', checks=HASH_CHECKS, harness='unsigned x; size_t n; left_rotate(x, n); VERIF_REACH;'),
     dict(name='sha1_process_block0', props=P, enforce='sha1_process_block0', replace=['left_rotate'], checks=HASH_CHECKS, timeout=300, cost=20,
